@@ -307,6 +307,142 @@ T('C03', 'twin-pkesk-decrypt-privkey-local', PK, "            ct = self.ct.me_mo
 T('C03', 'twin-ecdh-encrypt-direct-class', FL, "        padder = PKCS7(64).padder()\n        m = padder.update(_m) + padder.finalize()\n\n        km = pk.keymaterial\n        ct = cls()\n",
   "        padder = PKCS7(64).padder()\n        m = padder.update(_m)\n        m += padder.finalize()\n\n        km = pk.keymaterial\n        ct = ECDHCipherText()\n")
 
+# ---- twins produced by an independent refactoring agent that were noisy before the value-based rules / engine normal forms
+T('C13', 'ag-pkesk-extend-tuple-const', PK, "__all__ = ['PKESessionKey',",
+  "# RFC 4880 5.1: the session key checksum is taken modulo 65536\n_SK_CHECKSUM_MOD = 1 << 16\n\n__all__ = ['PKESessionKey',",
+  more=[(PK, '        m = bytearray(self.int_to_bytes(symalg) + symkey)\n        m += self.int_to_bytes(sum(bytearray(symkey)) % 65536, 2)\n\n        if self.pkalg == PubKeyAlgorithm.RSAEncryptOrSign:\n            encrypter = pk.keymaterial.__pubkey__().encrypt\n            encargs = (bytes(m), padding.PKCS1v15(),)\n\n        elif self.pkalg == PubKeyAlgorithm.ECDH:\n            encrypter = pk\n            encargs = (bytes(m),)\n\n        else:\n            raise NotImplementedError(self.pkalg)\n\n        self.ct = self.ct.encrypt(encrypter, *encargs)', '        block = bytearray(self.int_to_bytes(symalg) + symkey)\n        cksum = sum(bytearray(symkey)) % _SK_CHECKSUM_MOD\n        block.extend(self.int_to_bytes(cksum, 2))\n\n        if self.pkalg == PubKeyAlgorithm.RSAEncryptOrSign:\n            fn, fnargs = pk.keymaterial.__pubkey__().encrypt, (bytes(block), padding.PKCS1v15())\n\n        elif self.pkalg == PubKeyAlgorithm.ECDH:\n            fn, fnargs = pk, (bytes(block),)\n\n        else:\n            raise NotImplementedError(self.pkalg)\n\n        self.ct = self.ct.encrypt(fn, *fnargs)')])
+T('C03', 'ag-skesk-parse-slice-assign', PK, '        _bytes = bytearray()\n        _bytes += super(SKESessionKeyV4, self).__bytearray__()\n        _bytes += self.s2k.__bytearray__()[1:]\n        _bytes += self.ct\n        return _bytes',
+  '        hdr = super(SKESessionKeyV4, self).__bytearray__()\n        # the S2K usage octet is not part of this packet\n        s2k_spec = self.s2k.__bytearray__()[1:]\n        return bytearray(hdr) + s2k_spec + self.ct',
+  more=[(PK, '        packet.insert(0, 255)\n        self.s2k.parse(packet, iv=False)\n\n        ctend = self.header.length - len(self.s2k)\n        self.ct = packet[:ctend]\n        del packet[:ctend]', "        packet.insert(0, 0xFF)\n        self.s2k.parse(packet, False)\n\n        esk_len = self.header.length - len(self.s2k)\n        self.ct, packet[:esk_len] = packet[:esk_len], b''")])
+T('C03', 'ag-symenc-condexpr-bytesn-kwargs', SE, "    if iv is None:\n        iv = b'\\x00' * (alg.block_size // 8)",
+  '    iv = bytes(alg.block_size // 8) if iv is None else iv',
+  more=[(SE, '        encryptor = Cipher(alg.cipher(key), modes.CFB(iv), default_backend()).encryptor()', '        cfb = Cipher(algorithm=alg.cipher(key), mode=modes.CFB(iv), backend=default_backend())\n        encryptor = cfb.encryptor()'),
+        (SE, "        iv = b'\\x00' * (alg.block_size // 8)\n\n    try:\n        decryptor = Cipher(alg.cipher(key), modes.CFB(iv), default_backend()).decryptor()", '        iv = bytes(alg.block_size // 8)\n\n    try:\n        cfb = Cipher(algorithm=alg.cipher(key), mode=modes.CFB(iv), backend=default_backend())\n        decryptor = cfb.decryptor()')])
+T('C03', 'ag-eckdf-join-hashcls-temp', FL, "        data = bytearray()\n        data += encoder.encode(curve.value)[1:]\n        data.append(pkalg)\n        data += b'\\x03\\x01'\n        data.append(self.halg)\n        data.append(self.encalg)\n        data += b'Anonymous Sender    '\n        data += binascii.unhexlify(fingerprint.replace(' ', ''))\n\n        ckdf = ConcatKDFHash(algorithm=getattr(hashes, self.halg.name)(), length=self.encalg.key_size // 8, otherinfo=bytes(data), backend=default_backend())",
+  "        param = b''.join([\n            encoder.encode(curve.value)[1:],\n            bytes([pkalg, 0x03, 0x01, self.halg, self.encalg]),\n            b'Anonymous Sender    ',\n            binascii.unhexlify(fingerprint.replace(' ', '')),\n        ])\n\n        hash_cls = getattr(hashes, self.halg.name)\n        kek_len = self.encalg.key_size // 8\n        ckdf = ConcatKDFHash(algorithm=hash_cls(), length=kek_len, otherinfo=param, backend=default_backend())")
+T('C03', 'ag-ecdh-decrypt-swap-extend-list', FL, '        if km.oid == EllipticCurveOID.Curve25519:\n            v = x25519.X25519PublicKey.from_public_bytes(self.p.x)\n            s = km.__privkey__().exchange(v)\n        else:\n            # assemble the public component of ephemeral key v\n            v = ec.EllipticCurvePublicNumbers(self.p.x, self.p.y, km.oid.curve()).public_key(default_backend())\n            # compute s using the inverse of how it was derived during encryption\n            s = km.__privkey__().exchange(ec.ECDH(), v)\n\n        # derive the wrapping key\n        z = km.kdf.derive_key(s, km.oid, PubKeyAlgorithm.ECDH, pk.fingerprint)\n\n        # unwrap and unpad m\n        _m = aes_key_unwrap(z, self.c, default_backend())\n\n        padder = PKCS7(64).unpadder()\n        return padder.update(_m) + padder.finalize()',
+  '        if km.oid != EllipticCurveOID.Curve25519:\n            # assemble the public component of ephemeral key v\n            numbers = ec.EllipticCurvePublicNumbers(self.p.x, self.p.y, km.oid.curve())\n            eph_pub = numbers.public_key(default_backend())\n            # compute s using the inverse of how it was derived during encryption\n            shared = km.__privkey__().exchange(ec.ECDH(), eph_pub)\n        else:\n            eph_pub = x25519.X25519PublicKey.from_public_bytes(self.p.x)\n            shared = km.__privkey__().exchange(eph_pub)\n\n        # derive the wrapping key, then unwrap and unpad m\n        kek = km.kdf.derive_key(shared, km.oid, PubKeyAlgorithm.ECDH, pk.fingerprint)\n        padded = aes_key_unwrap(wrapping_key=kek, wrapped_key=self.c, backend=default_backend())\n\n        unpadder = PKCS7(64).unpadder()\n        return unpadder.update(padded) + unpadder.finalize()',
+  more=[(FL, '        _bytes += self.p.to_mpibytes()\n        _bytes.append(len(self.c))\n        _bytes += self.c', '        _bytes.extend(self.p.to_mpibytes())\n        _bytes.extend([len(self.c)])\n        _bytes.extend(self.c)')])
+T('C03', 'ag-compress-elif-consts-wbits-kw', CO, '# this is 50 KiB',
+  '# raw DEFLATE (RFC 1951) streams carry neither the 2-octet zlib header nor the 4-octet Adler-32 trailer\n_ZLIB_HEADER_LEN = 2\n_ZLIB_TRAILER_LEN = 4\n_RAW_DEFLATE_WBITS = -15\n\n# this is 50 KiB',
+  more=[(CO, '            return data\n\n        if self is CompressionAlgorithm.ZIP:\n            return zlib.compress(data)[2:-4]\n\n        if self is CompressionAlgorithm.ZLIB:\n            return zlib.compress(data)\n\n        if self is CompressionAlgorithm.BZ2:\n            return bz2.compress(data)\n\n        raise NotImplementedError(self)\n\n    def decompress(self, data):\n        if self is CompressionAlgorithm.Uncompressed:\n            return data\n\n        if self is CompressionAlgorithm.ZIP:\n            return zlib.decompress(data, -15)\n\n        if self is CompressionAlgorithm.ZLIB:\n            return zlib.decompress(data)\n\n        if self is CompressionAlgorithm.BZ2:\n            return bz2.decompress(data)\n\n        raise NotImplementedError(self)', '            out = data\n\n        elif self is CompressionAlgorithm.ZIP:\n            out = zlib.compress(data)[_ZLIB_HEADER_LEN:-_ZLIB_TRAILER_LEN]\n\n        elif self is CompressionAlgorithm.ZLIB:\n            out = zlib.compress(data)\n\n        elif self is CompressionAlgorithm.BZ2:\n            out = bz2.compress(data)\n\n        else:\n            raise NotImplementedError(self)\n\n        return out\n\n    def decompress(self, data):\n        if self is CompressionAlgorithm.Uncompressed:\n            out = data\n\n        elif self is CompressionAlgorithm.ZIP:\n            out = zlib.decompress(data, wbits=_RAW_DEFLATE_WBITS)\n\n        elif self is CompressionAlgorithm.ZLIB:\n            out = zlib.decompress(data)\n\n        elif self is CompressionAlgorithm.BZ2:\n            out = bz2.decompress(data)\n\n        else:\n            raise NotImplementedError(self)\n\n        return out')])
+T('C03', 'ag-zip-explicit-slice-bound', CO, '# this is 50 KiB',
+  '_RAW_DEFLATE_WBITS = -15\n\n# this is 50 KiB',
+  more=[(CO, '            return zlib.compress(data)[2:-4]', '            zdata = zlib.compress(data)\n            return zdata[2:len(zdata) - 4]'),
+        (CO, '            return zlib.decompress(data, -15)', '            return zlib.decompress(data, _RAW_DEFLATE_WBITS)')])
+T('C13', 'ag-urandom-from-import', CO, 'import warnings',
+  '\nfrom os import urandom\nimport warnings',
+  more=[(CO, '        return os.urandom(self.block_size // 8)\n\n    def gen_key(self):\n        return os.urandom(self.key_size // 8)', '        nbytes = self.block_size // 8\n        return urandom(nbytes)\n\n    def gen_key(self):\n        nbytes = self.key_size // 8\n        return urandom(nbytes)')])
+T('C03', 'ag-select-loop-else-raise', PGP, '        pkesk = next(pk for pk in message._sessionkeys if isinstance(pk, PKESessionKey)\n                     and pk.pkalg == self.key_algorithm and pk.encrypter == self.fingerprint.keyid)',
+  '        for candidate in message._sessionkeys:\n            if not isinstance(candidate, PKESessionKey):\n                continue\n\n            if candidate.pkalg == self.key_algorithm and candidate.encrypter == self.fingerprint.keyid:\n                pkesk = candidate\n                break\n\n        else:\n            raise StopIteration\n')
+T('C03', 'ag-select-loop-var-is-result', PGP, '        pkesk = next(pk for pk in message._sessionkeys if isinstance(pk, PKESessionKey)\n                     and pk.pkalg == self.key_algorithm and pk.encrypter == self.fingerprint.keyid)',
+  '        for pkesk in message._sessionkeys:\n            if (isinstance(pkesk, PKESessionKey)\n                    and pkesk.pkalg == self.key_algorithm and pkesk.encrypter == self.fingerprint.keyid):\n                break\n        else:\n            raise StopIteration')
+T('C13', 'ag-keyblob-tuple-temps-pow-const', FL, '    @property\n    def __mpis__(self):\n        for i in super(PrivKey, self).__mpis__:',
+  '    # RFC 4880 3.7.1.2: salted S2K specifiers carry 8 octets of salt\n    _S2K_SALT_LEN = 2 ** 3\n\n    @property\n    def __mpis__(self):\n        for i in super(PrivKey, self).__mpis__:',
+  more=[(FL, '    def encrypt_keyblob(self, passphrase, enc_alg, hash_alg):\n        # PGPy will only ever use iterated and salted S2k mode\n        self.s2k.usage = 254\n        self.s2k.encalg = enc_alg\n        self.s2k.specifier = String2KeyType.Iterated\n        self.s2k.iv = enc_alg.gen_iv()\n        self.s2k.halg = hash_alg\n        self.s2k.salt = bytearray(os.urandom(8))', '    def _privfield_bytes(self):\n        """the secret MPIs of this key, in packet order"""\n        _bytes = bytearray()\n        for pf in self.__privfields__:\n            _bytes += getattr(self, pf).to_mpibytes()\n        return _bytes\n\n    def encrypt_keyblob(self, passphrase, enc_alg, hash_alg):\n        # PGPy will only ever use iterated and salted S2k mode\n        self.s2k.usage = 254\n        self.s2k.encalg = enc_alg\n        self.s2k.specifier = String2KeyType.Iterated\n        iv, salt = enc_alg.gen_iv(), os.urandom(self._S2K_SALT_LEN)\n        self.s2k.iv, self.s2k.halg, self.s2k.salt = iv, hash_alg, bytearray(salt)'),
+        (FL, "        pt = bytearray()\n        for pf in self.__privfields__:\n            pt += getattr(self, pf).to_mpibytes()\n\n        # append a SHA-1 hash of the plaintext so far to the plaintext\n        pt += hashlib.new('sha1', pt).digest()", "        pt = self._privfield_bytes()\n\n        # append a SHA-1 hash of the plaintext so far to the plaintext\n        sha1 = hashlib.new('sha1', pt).digest()\n        pt += sha1")])
+T('C03', 'ag-seipd-inline-gen-iv', PK, '        iv = alg.gen_iv()',
+  '        # block_size // 8 random octets, then the last two of them once more\n        iv = os.urandom(alg.block_size // 8)')
+T('C13', 'ag-seipd-inline-gen-iv', PK, '        iv = alg.gen_iv()',
+  '        # block_size // 8 random octets, then the last two of them once more\n        iv = os.urandom(alg.block_size // 8)')
+T('C13', 'ag-inline-gen-key', PGP, '            sessionkey = cipher_algo.gen_key()\n        skesk.encrypt_sk(passphrase, sessionkey)',
+  '            sessionkey = os.urandom(cipher_algo.key_size // 8)\n        skesk.encrypt_sk(passphrase, sessionkey)',
+  more=[(PGP, '            sessionkey = cipher_algo.gen_key()', '            sessionkey = os.urandom(cipher_algo.key_size // 8)')])
+T('C03', 'ag-cipher-table-aliases-get', CO, "        bs = {SymmetricKeyAlgorithm.IDEA: algorithms.IDEA,\n              SymmetricKeyAlgorithm.TripleDES: algorithms.TripleDES,\n              SymmetricKeyAlgorithm.CAST5: algorithms.CAST5,\n              SymmetricKeyAlgorithm.Blowfish: algorithms.Blowfish,\n              SymmetricKeyAlgorithm.AES128: algorithms.AES,\n              SymmetricKeyAlgorithm.AES192: algorithms.AES,\n              SymmetricKeyAlgorithm.AES256: algorithms.AES,\n              SymmetricKeyAlgorithm.Twofish256: namedtuple('Twofish256', ['block_size'])(block_size=128),\n              SymmetricKeyAlgorithm.Camellia128: algorithms.Camellia,\n              SymmetricKeyAlgorithm.Camellia192: algorithms.Camellia,\n              SymmetricKeyAlgorithm.Camellia256: algorithms.Camellia}\n\n        if self in bs:\n            return bs[self]\n\n        raise NotImplementedError(repr(self))",
+  "        cls = SymmetricKeyAlgorithm\n        aes, camellia = algorithms.AES, algorithms.Camellia\n        # Twofish is not provided by cryptography; only its block size is known\n        twofish = namedtuple('Twofish256', ['block_size'])(block_size=128)\n\n        impls = {cls.IDEA: algorithms.IDEA,\n                 cls.TripleDES: algorithms.TripleDES,\n                 cls.CAST5: algorithms.CAST5,\n                 cls.Blowfish: algorithms.Blowfish,\n                 cls.AES128: aes, cls.AES192: aes, cls.AES256: aes,\n                 cls.Twofish256: twofish,\n                 cls.Camellia128: camellia, cls.Camellia192: camellia, cls.Camellia256: camellia}\n\n        impl = impls.get(self)\n        if impl is None:\n            raise NotImplementedError(repr(self))\n\n        return impl")
+T('C13', 'ag-cipher-table-aliases-get', CO, "        bs = {SymmetricKeyAlgorithm.IDEA: algorithms.IDEA,\n              SymmetricKeyAlgorithm.TripleDES: algorithms.TripleDES,\n              SymmetricKeyAlgorithm.CAST5: algorithms.CAST5,\n              SymmetricKeyAlgorithm.Blowfish: algorithms.Blowfish,\n              SymmetricKeyAlgorithm.AES128: algorithms.AES,\n              SymmetricKeyAlgorithm.AES192: algorithms.AES,\n              SymmetricKeyAlgorithm.AES256: algorithms.AES,\n              SymmetricKeyAlgorithm.Twofish256: namedtuple('Twofish256', ['block_size'])(block_size=128),\n              SymmetricKeyAlgorithm.Camellia128: algorithms.Camellia,\n              SymmetricKeyAlgorithm.Camellia192: algorithms.Camellia,\n              SymmetricKeyAlgorithm.Camellia256: algorithms.Camellia}\n\n        if self in bs:\n            return bs[self]\n\n        raise NotImplementedError(repr(self))",
+  "        cls = SymmetricKeyAlgorithm\n        aes, camellia = algorithms.AES, algorithms.Camellia\n        # Twofish is not provided by cryptography; only its block size is known\n        twofish = namedtuple('Twofish256', ['block_size'])(block_size=128)\n\n        impls = {cls.IDEA: algorithms.IDEA,\n                 cls.TripleDES: algorithms.TripleDES,\n                 cls.CAST5: algorithms.CAST5,\n                 cls.Blowfish: algorithms.Blowfish,\n                 cls.AES128: aes, cls.AES192: aes, cls.AES256: aes,\n                 cls.Twofish256: twofish,\n                 cls.Camellia128: camellia, cls.Camellia192: camellia, cls.Camellia256: camellia}\n\n        impl = impls.get(self)\n        if impl is None:\n            raise NotImplementedError(repr(self))\n\n        return impl")
+T('C03', 'ag-seipd-quickcheck-len-slice', PK, '        data = iv + iv[-2:] + data',
+  '        quick_check = iv[len(iv) - 2:]\n        data = iv + quick_check + data')
+T('C03', 'ag-select-filter-predicate', PGP, '        pkesk = next(pk for pk in message._sessionkeys if isinstance(pk, PKESessionKey)\n                     and pk.pkalg == self.key_algorithm and pk.encrypter == self.fingerprint.keyid)',
+  '        def is_mine(pk):\n            return (isinstance(pk, PKESessionKey)\n                    and pk.pkalg == self.key_algorithm\n                    and pk.encrypter == self.fingerprint.keyid)\n\n        pkesk = next(filter(is_mine, message._sessionkeys))')
+T('C13', 'ag-geniv-divmod-truediv', CO, '        return os.urandom(self.block_size // 8)\n\n    def gen_key(self):\n        return os.urandom(self.key_size // 8)',
+  '        nbytes, _ = divmod(self.block_size, 8)\n        return os.urandom(nbytes)\n\n    def gen_key(self):\n        bits = self.key_size\n        return os.urandom(int(bits / 8))')
+T('C03', 'ag-compress-dispatch-dict', CO, '        if self is CompressionAlgorithm.ZIP:\n            return zlib.compress(data)[2:-4]\n\n        if self is CompressionAlgorithm.ZLIB:\n            return zlib.compress(data)\n\n        if self is CompressionAlgorithm.BZ2:\n            return bz2.compress(data)',
+  '        codecs = {CompressionAlgorithm.ZIP: lambda d: zlib.compress(d)[2:-4],\n                  CompressionAlgorithm.ZLIB: zlib.compress,\n                  CompressionAlgorithm.BZ2: bz2.compress}\n\n        if self in codecs:\n            return codecs[self](data)',
+  more=[(CO, '        if self is CompressionAlgorithm.ZIP:\n            return zlib.decompress(data, -15)\n\n        if self is CompressionAlgorithm.ZLIB:\n            return zlib.decompress(data)\n\n        if self is CompressionAlgorithm.BZ2:\n            return bz2.decompress(data)', '        codecs = {CompressionAlgorithm.ZIP: lambda d: zlib.decompress(d, -15),\n                  CompressionAlgorithm.ZLIB: zlib.decompress,\n                  CompressionAlgorithm.BZ2: bz2.decompress}\n\n        if self in codecs:\n            return codecs[self](data)')])
+T('C03', 'ag-pkesk-match-statement', PK, '        if self.pkalg == PubKeyAlgorithm.RSAEncryptOrSign:\n            encrypter = pk.keymaterial.__pubkey__().encrypt\n            encargs = (bytes(m), padding.PKCS1v15(),)\n\n        elif self.pkalg == PubKeyAlgorithm.ECDH:\n            encrypter = pk\n            encargs = (bytes(m),)\n\n        else:\n            raise NotImplementedError(self.pkalg)',
+  '        match self.pkalg:\n            case PubKeyAlgorithm.RSAEncryptOrSign:\n                encrypter = pk.keymaterial.__pubkey__().encrypt\n                encargs = (bytes(m), padding.PKCS1v15(),)\n\n            case PubKeyAlgorithm.ECDH:\n                encrypter = pk\n                encargs = (bytes(m),)\n\n            case _:\n                raise NotImplementedError(self.pkalg)')
+T('C03', 'ag-pkesk-checksum-loop', PK, '        m = bytearray(self.int_to_bytes(symalg) + symkey)\n        m += self.int_to_bytes(sum(bytearray(symkey)) % 65536, 2)\n\n        if self.pkalg == PubKeyAlgorithm.RSAEncryptOrSign:\n            encrypter = pk.keymaterial.__pubkey__().encrypt\n            encargs = (bytes(m), padding.PKCS1v15(),)\n\n        elif self.pkalg == PubKeyAlgorithm.ECDH:\n            encrypter = pk\n            encargs = (bytes(m),)',
+  '        body = self.int_to_bytes(symalg) + symkey\n\n        total = 0\n        for octet in bytearray(symkey):\n            total += octet\n\n        m = bytes(body + self.int_to_bytes(total % 65536, 2))\n\n        if self.pkalg == PubKeyAlgorithm.RSAEncryptOrSign:\n            encrypter = pk.keymaterial.__pubkey__().encrypt\n            encargs = (m, padding.PKCS1v15(),)\n\n        elif self.pkalg == PubKeyAlgorithm.ECDH:\n            encrypter = pk\n            encargs = (m,)')
+T('C13', 'ag-ecdh-pad-join-kwargs', FL, '    @classmethod\n    def encrypt(cls, pk, *args):',
+  '    # RFC 6637 section 8: m is PKCS5-padded to a multiple of the 8-octet AES key wrap block\n    _PAD_BLOCK_BITS = 8 * 8\n\n    @classmethod\n    def encrypt(cls, pk, *args):',
+  more=[(FL, '        padder = PKCS7(64).padder()\n        m = padder.update(_m) + padder.finalize()', "        padder = PKCS7(cls._PAD_BLOCK_BITS).padder()\n        m = b''.join((padder.update(_m), padder.finalize()))"),
+        (FL, '        ct.c = aes_key_wrap(z, m, default_backend())', '        ct.c = aes_key_wrap(wrapping_key=z, key_to_wrap=m, backend=default_backend())'),
+        (FL, '        padder = PKCS7(64).unpadder()\n        return padder.update(_m) + padder.finalize()', '        unpadder = PKCS7(self._PAD_BLOCK_BITS).unpadder()\n        head = unpadder.update(_m)\n        return head + unpadder.finalize()')])
+T('C03', 'ag-msg-decrypt-list-early-return', PGP, '        for skesk in iter(sk for sk in self._sessionkeys if isinstance(sk, SKESessionKey)):',
+  '        candidates = [esk for esk in self._sessionkeys if isinstance(esk, SKESessionKey)]\n        for skesk in candidates:',
+  more=[(PGP, '            else:\n                del passphrase\n                break\n\n        else:\n            raise PGPDecryptionError("Decryption failed")\n\n        return decmsg', '            del passphrase\n            return decmsg\n\n        raise PGPDecryptionError("Decryption failed")')])
+T('C03', 'ag-pgp-shared-seipd-builder', PGP, 'class PGPSignature(Armorable, ParentRef, PGPObject):',
+  'def _protect(plaintext, sessionkey, cipher_algo):\n    # wrap serialized packets in a Sym. Encrypted Integrity Protected Data packet\n    skedata = IntegrityProtectedSKEDataV1()\n    skedata.encrypt(sessionkey, cipher_algo, plaintext)\n    return skedata\n\n\nclass PGPSignature(Armorable, ParentRef, PGPObject):',
+  more=[(PGP, '            skedata = IntegrityProtectedSKEDataV1()\n            skedata.encrypt(sessionkey, cipher_algo, self.__bytes__())\n            msg |= skedata', '            msg |= _protect(self.__bytes__(), sessionkey, cipher_algo)'),
+        (PGP, '            skedata = IntegrityProtectedSKEDataV1()\n            skedata.encrypt(sessionkey, cipher_algo, message.__bytes__())\n            _m |= skedata', '            _m |= _protect(message.__bytes__(), sessionkey, cipher_algo)')])
+T('C13', 'ag-key-encrypt-walrus', PGP, "        if sessionkey is None:\n            sessionkey = cipher_algo.gen_key()\n\n        # set up a new PKESessionKeyV3\n        pkesk = PKESessionKeyV3()\n        pkesk.encrypter = bytearray(binascii.unhexlify(self.fingerprint.keyid.encode('latin-1')))\n        pkesk.pkalg = self.key_algorithm\n        pkesk.encrypt_sk(self._key, cipher_algo, sessionkey)",
+  "        if (sk := sessionkey) is None:\n            sk = cipher_algo.gen_key()\n\n        # set up a new PKESessionKeyV3\n        pkesk = PKESessionKeyV3()\n        pkesk.encrypter = bytearray(binascii.unhexlify(self.fingerprint.keyid.encode('latin-1')))\n        pkesk.pkalg = self.key_algorithm\n        pkesk.encrypt_sk(self._key, cipher_algo, sk)",
+  more=[(PGP, '            skedata.encrypt(sessionkey, cipher_algo, message.__bytes__())', '            skedata.encrypt(sk, cipher_algo, message.__bytes__())')])
+# ---- mutants by an independent agent that the rules did not report before (now: result assembly, block size, RSA wiring, point encoding, decrypt side, salted S2K, confinement in _encrypt, ephemeral key)
+M('C03', 'ag-msg-encrypt-attaches-plaintext', PGP, '            msg |= skedata',
+  '            msg |= self', 'C03.7')
+M('C03', 'ag-key-encrypt-attaches-plaintext', PGP, '            _m |= skedata',
+  '            _m |= message', 'C03.7')
+M('C03', 'ag-msg-encrypt-returns-self', PGP, '        return msg\n\n    def decrypt(self, passphrase):',
+  '        return self\n\n    def decrypt(self, passphrase):', 'C03.7')
+M('C03', 'ag-key-encrypt-pkesk-not-attached', PGP, '        _m |= pkesk\n\n        return _m',
+  '        return _m', 'C03.7')
+M('C03', 'ag-msg-encrypt-container-not-attached', PGP, '            msg |= skedata\n',
+  '', 'C03.7')
+M('C03', 'ag-key-encrypt-pkesk-on-input', PGP, '        _m |= pkesk',
+  '        message |= pkesk', 'C03.7')
+M('C03', 'ag-blocksize-is-keysize', CO, '        return self.cipher.block_size',
+  '        return self.key_size', 'C03.4')
+M('C13', 'ag-blocksize-is-keysize', CO, '        return self.cipher.block_size',
+  '        return self.key_size', 'C13.1')
+M('C03', 'ag-ecdh-mapped-to-elgamal-ct', PK, '              PubKeyAlgorithm.ECDH: ECDHCipherText}',
+  '              PubKeyAlgorithm.ECDH: ElGCipherText}', 'C03.1')
+M('C03', 'ag-rsa-ct-little-endian', FL, '        ct.me_mod_n = MPI(cls.bytes_to_int(encfn(*args)))',
+  "        ct.me_mod_n = MPI(int.from_bytes(encfn(*args), 'little'))", 'C03.1')
+M('C03', 'ag-rsa-ct-decrypt-drops-octet', FL, '        return decfn(*args)',
+  '        return decfn(*args)[1:]', 'C03.1')
+M('C03', 'ag-ecdh-point-bitlen-fixed', FL, '            ct.p = ECPoint.from_values(km.oid.key_size, ECPointFormat.Standard, x, y)',
+  '            ct.p = ECPoint.from_values(EllipticCurveOID.NIST_P256.key_size, ECPointFormat.Standard, x, y)', 'C03.5')
+M('C03', 'ag-seipd-no-update-hlen', PK, '        self.update_hlen()\n\n    def decrypt(self, key, alg):',
+  '\n    def decrypt(self, key, alg):', 'C03.2')
+M('C03', 'ag-pkesk-decrypt-keylen-blocksize', PK, '        symkey = m[:symalg.key_size // 8]\n        del m[:symalg.key_size // 8]',
+  '        klen = symalg.block_size // 8\n        symkey = m[:klen]\n        del m[:klen]', 'C03.1')
+M('C03', 'ag-seipd-decrypt-prefix-keysize', PK, '        iv = bytes(pt[:alg.block_size // 8])\n        del pt[:alg.block_size // 8]',
+  '        iv = bytes(pt[:alg.key_size // 8])\n        del pt[:alg.key_size // 8]', 'C03.2')
+M('C03', 'ag-decrypt-container-alg-fixed', PGP, '        decmsg.parse(message.message.decrypt(key, alg))',
+  '        decmsg.parse(message.message.decrypt(key, SymmetricKeyAlgorithm.AES256))', 'C03.7')
+M('C03', 'ag-msg-decrypt-args-swapped', PGP, '                decmsg.parse(self.message.decrypt(key, symalg))',
+  '                decmsg.parse(self.message.decrypt(symalg, key))', 'C03.7')
+M('C03', 'ag-msg-decrypt-no-class-filter', PGP, '        for skesk in iter(sk for sk in self._sessionkeys if isinstance(sk, SKESessionKey)):',
+  '        for skesk in iter(sk for sk in self._sessionkeys):', 'C03.8')
+M('C03', 'ag-select-first-element', PGP, '        pkesk = next(pk for pk in message._sessionkeys if isinstance(pk, PKESessionKey)\n                     and pk.pkalg == self.key_algorithm and pk.encrypter == self.fingerprint.keyid)',
+  '        pkesk = message._sessionkeys[0]', 'C03.8')
+M('C03', 'ag-select-filter-lambda-no-keyid', PGP, '        pkesk = next(pk for pk in message._sessionkeys if isinstance(pk, PKESessionKey)\n                     and pk.pkalg == self.key_algorithm and pk.encrypter == self.fingerprint.keyid)',
+  '        mine = filter(lambda pk: isinstance(pk, PKESessionKey) and pk.pkalg == self.key_algorithm,\n                      message._sessionkeys)\n        pkesk = next(mine)', 'C03.8')
+M('C03', 'ag-select-loop-falls-back', PGP, '        pkesk = next(pk for pk in message._sessionkeys if isinstance(pk, PKESessionKey)\n                     and pk.pkalg == self.key_algorithm and pk.encrypter == self.fingerprint.keyid)',
+  '        pkesk = None\n        for pk in message._sessionkeys:\n            if not isinstance(pk, PKESessionKey):\n                continue\n            if pk.encrypter == self.fingerprint.keyid or pkesk is None:\n                pkesk = pk', 'C03.8')
+M('C13', 'ag-s2k-simple-specifier', PGP, '        skesk.s2k.specifier = 3',
+  '        skesk.s2k.specifier = 0', 'C13.2')
+M('C13', 'ag-leak-symenc-global', SE, '    try:\n        encryptor = Cipher(alg.cipher(key), modes.CFB(iv), default_backend()).encryptor()',
+  '    global _last_key\n    _last_key = key\n    try:\n        encryptor = Cipher(alg.cipher(key), modes.CFB(iv), default_backend()).encryptor()', 'C13.3')
+M('C13', 'ag-leak-symenc-exception-text', SE, '        raise PGPEncryptionError from ex',
+  '        raise PGPEncryptionError("cipher setup failed for key {!r}".format(key)) from ex', 'C13.3')
+M('C13', 'ag-ephemeral-stored-on-ct', FL, '            s = v.exchange(ec.ECDH(), km.__pubkey__())',
+  '            s = v.exchange(ec.ECDH(), km.__pubkey__())\n            ct._v = v', 'C13.2')
+# ---- mutants disguised by a refactoring (helper / temporary introduced AND semantics changed)
+M('C03', 'ag-pkesk-helper-checksum-offbyone', PK, '    def encrypt_sk(self, pk, symalg, symkey):\n        m = bytearray(self.int_to_bytes(symalg) + symkey)\n        m += self.int_to_bytes(sum(bytearray(symkey)) % 65536, 2)',
+  '    def _session_block(self, symalg, symkey):\n        body = bytearray(self.int_to_bytes(symalg) + symkey)\n        chk = sum(body[1:-1]) % 65536\n        return body + self.int_to_bytes(chk, 2)\n\n    def encrypt_sk(self, pk, symalg, symkey):\n        m = self._session_block(symalg, symkey)', 'C03.1')
+M('C03', 'ag-seipd-helper-prefix-first2', PK, '    def encrypt(self, key, alg, data):\n        iv = alg.gen_iv()\n        data = iv + iv[-2:] + data',
+  '    @staticmethod\n    def _random_prefix(alg):\n        block = alg.gen_iv()\n        return block + block[:2]\n\n    def encrypt(self, key, alg, data):\n        data = self._random_prefix(alg) + data', 'C03.2')
+M('C03', 'ag-symenc-helper-default-cfb8', SE, 'def _encrypt(pt, key, alg, iv=None):',
+  'def _cipher(alg, key, iv, mode=modes.CFB8):\n    return Cipher(alg.cipher(key), mode(iv), default_backend())\n\n\ndef _encrypt(pt, key, alg, iv=None):', 'C03.4',
+  more=[(SE, '        encryptor = Cipher(alg.cipher(key), modes.CFB(iv), default_backend()).encryptor()', '        encryptor = _cipher(alg, key, iv, modes.CFB).encryptor()'),
+        (SE, '        decryptor = Cipher(alg.cipher(key), modes.CFB(iv), default_backend()).decryptor()', '        decryptor = _cipher(alg, key, iv).decryptor()')])
+M('C03', 'ag-select-helper-or', PGP, '        pkesk = next(pk for pk in message._sessionkeys if isinstance(pk, PKESessionKey)\n                     and pk.pkalg == self.key_algorithm and pk.encrypter == self.fingerprint.keyid)',
+  '        def _candidates():\n            for pk in message._sessionkeys:\n                if not isinstance(pk, PKESessionKey):\n                    continue\n                if pk.encrypter == self.fingerprint.keyid or pk.pkalg == self.key_algorithm:\n                    yield pk\n        pkesk = next(_candidates())', 'C03.8')
+
 # =============================================================================================== C02
 M('C02', 'hash2-last-two', PGP, "        sig._signature.hash2 = bytearray(h2.digest()[:2])", "        sig._signature.hash2 = bytearray(h2.digest()[-2:])", 'C02.2')
 M('C02', 'signer-hashdata-none', PGP, "        _sig = self._key.sign(sigdata, getattr(hashes, sig.hash_algorithm.name)())", "        _sig = self._key.sign(sig.hashdata(None), getattr(hashes, sig.hash_algorithm.name)())", 'C02.2')
